@@ -6,10 +6,12 @@ package gorm
 //@ package gorm.io/gorm
 
 //@ # ---------- C04: transaction protocol ghost state ----------
-//@ ghost begins commits rollbacks sps rbtos fccalls spname rbname fcerrtag fcerrbox opened commitErrTag
+//@ ghost begins commits rollbacks sps rbtos fccalls spname rbname fcerrtag fcerrbox opened commitErrTag beginErrTag beginErrBox
 
 //@ event call (*DB).Begin
 //@   do begins = begins + 1
+//@   do beginErrTag = tagof(result.Error)
+//@   do beginErrBox = boxof(result.Error)
 //@ event call (*DB).Commit
 //@   do commits = commits + 1
 //@   do commitErrTag = tagof(result.Error)
